@@ -1,6 +1,9 @@
 /- Driver/C03.lean — line-protocol driver for the C03 model (see Base/Proto.lean).
 
-   {"op":"world","target":T,"procs":[{pid,ppid,ctime,long,guess,tids:[[t,stale]],fds:[[fd,kind]],stale}]}
+   {"op":"world","target":T,"procs":[{pid,ppid,ctime,long,guess,tids:[[t,stale]],fds:[[fd,kind]],stale,
+                                       maps:["anon"|"file"|"deleted"|"literal",..]}]}
+   (maps = the mappings of smaps in file order; "deleted" = the name ends in " (deleted)" and no such file exists,
+    "literal" = … and a file of that literal name exists; trace entry of the probe: "stat <pid>/map/<i>")
    {"op":"run","method":m,"attrs":[..],"plan":{"switch":[[k,"zombie"|"gone"]],"deny":[[k,"EACCES"|"EPERM"]]},
     "impl":{"kind":"ok","shape":..}|{"kind":"exc","exc":cls,"pid":p|null}}
      → {"model":outcome,"trace":[..],"spec":{"ok":b,"ok_any":b,"gone_nsp":b|null,"cause":b|null}}
@@ -23,6 +26,10 @@ def parseFdKind (s : String) : R FdKind :=
   else if s == "stale" then .ok .stale else if s == "infoStale" then .ok .infoStale
   else .error s!"bad fd kind {s}"
 
+def parseMapKind (s : String) : R MapKind :=
+  if s == "anon" then .ok .anon else if s == "file" then .ok .file else if s == "deleted" then .ok (.deleted false)
+  else if s == "literal" then .ok (.deleted true) else .error s!"bad mapping kind {s}"
+
 def parsePair {α β : Type} (f : Json → R α) (g : Json → R β) (j : Json) : R (α × β) :=
   match j.getArr? with
   | .ok #[a, b] => do pure (← f a, ← g b)
@@ -37,7 +44,8 @@ def parseProc (j : Json) : R ProcInfo := do
   let tids ← listF (parsePair asNat asBool) j "tids"
   let fds ← listF (parsePair asNat (fun x => asStr x >>= parseFdKind)) j "fds"
   let stale ← boolF j "stale"
-  pure { pid, ppid, ctime, long, guess, tids, fds, stale }
+  let maps ← listF (fun x => asStr x >>= parseMapKind) j "maps"
+  pure { pid, ppid, ctime, long, guess, tids, fds, stale, maps }
 
 def parseWorld (j : Json) : R World := do
   let target ← natF j "target"
@@ -87,6 +95,7 @@ def pathStr : Path → String
   | .fdInfo p fd => s!"{p}/fdinfo/{fd}"
   | .net .tcp => "net/tcp" | .net .tcp6 => "net/tcp6" | .net .udp => "net/udp" | .net .udp6 => "net/udp6"
   | .net .unix => "net/unix"
+  | .mapFile p i => s!"{p}/map/{i}"
 
 def opStr : Op → String
   | .openF => "open" | .readF => "read" | .readlink => "readlink" | .listdir => "listdir"
@@ -162,6 +171,8 @@ def program (w : World) (m : String) (attrs : List String) : Option (M Val) :=
     -- as_dict() / as_dict(attrs=None): `attrs` = the names of `_as_dict_attrnames` in the set's iteration order
     some (do let (n, ad) ← Fe.asDictAll cfg o attrs; pure (.asdict n ad))
   else if m == "process_iter" then some (Fe.processIter cfg attrs)
+  -- memory_maps(grouped=False): the same platform call, every item wrapped instead of grouped (all names are distinct)
+  else if m == "memory_maps_flat" then Fe.getter cfg o "memory_maps"
   else Fe.method cfg o m
 
 /-- the implementation's outcome with the one value shape `GoneAnswer` looks at (is_running() → bool) -/
